@@ -23,8 +23,11 @@ def validate_git_contract(ck, n):
     rng = random.Random(1000 + ck.seed)
     menu = sorted({t for tags, _f in c02.MENUS.values() for t in tags})
     bad = []
-    for _ in range(n):
+    kinds = [k for k, _t, _d in c02.STATUS_MENU]
+    for it in range(n + len(kinds)):
         desc = gitlib.random_desc(rng, menu)
+        if it < len(kinds):
+            desc['dirty'] = kinds[it]          # every work-tree state of the stub's status menu, each run
         d, hs = gitlib.build_repo(desc)
         try:
             inv = {h: c for c, h in hs.items()}
@@ -51,8 +54,11 @@ def validate_git_contract(ck, n):
                     bad.append(('rev-list -n 1', desc))
             if (gitlib.git(d, 'branch', '--show-current') or None) != desc.get('branch'):
                 bad.append(('branch --show-current', desc))
-            if bool(gitlib.git(d, 'status', '--porcelain')) != (desc.get('dirty') in ('untracked', 'modified', 'staged')):
+            if bool(gitlib.git(d, 'status', '--porcelain')) != (desc.get('dirty') not in (None, 'clean', 'ignored_only')):
                 bad.append(('status --porcelain', desc))
+            want = {n: t for n, t, _ in c02.STATUS_MENU}.get(desc.get('dirty') or 'clean')
+            if want is not None and gitlib.git(d, 'status', '--porcelain') != want.strip():
+                bad.append(('status --porcelain text of the stub menu', desc))
         finally:
             gitlib.remove(d)
         ck.validated += 1
